@@ -69,6 +69,7 @@ package node
 //@   call SetPeerSet assert[round]   __arg(0) == roundReceived + 6
 //@   call SetPeerSet assert[changed] exists k int :: 0 <= k && k < len(receipts) && AcceptedChange(receipts[k])
 //@   ensures[only-if-changed] (forall k int :: 0 <= k && k < len(receipts) ==> !AcceptedChange(receipts[k])) ==> !__called("SetPeerSet") && c.validators == old(c.validators) && c.peers == old(c.peers) && __eq(hg.G_pset(c.hg.Store), old(hg.G_pset(c.hg.Store)))
+//@   ensures[changed-stored]  ret0 == nil && (exists k int :: 0 <= k && k < len(receipts) && AcceptedChange(receipts[k])) ==> __called("SetPeerSet")
 //@   ensures[stored]          ret0 == nil && __called("SetPeerSet") ==> hg.G_pset(c.hg.Store)[roundReceived + 6] == c.validators && c.validators != nil
 //@   ensures[earlier-kept]    forall r int :: r < roundReceived + 6 ==> hg.G_pset(c.hg.Store)[r] == old(hg.G_pset(c.hg.Store))[r]
 //@   loop 1 modifies c.removedRound
